@@ -1046,6 +1046,651 @@ fn multiline_cells(ctx: &mut Ctx, idx: usize, r: &mut Rng) {
     ctx.case(family, &key, "pass", serde_json::json!({"query": query, "size": [w, h], "groups": ngroups, "rows": rows, "frames": frames.len(), "lines_of_full_table": plain_lines.len()}));
 }
 
+/* ---------- level 2f: phased inputs — cells that grow or shrink while the table keeps its shape ---------- */
+
+/// An input delivered in 2–4 phases. Between two phases the table on display is redrawn several
+/// times unchanged; the next phase then changes the WIDTH of cells (by +1 … +60 cells, or the
+/// opposite) — where the scenario allows it without changing the table's shape (same number of
+/// rows, same columns): a late long key entering a top-N table, a sum/max/min growing by many
+/// digits, a group's aggregate growing, a late long row entering a raw top-N sort, a new group
+/// sorting above rows already drawn.
+struct Phased {
+    kind: &'static str,
+    query: String,
+    /// the lines (without `\n`) of every phase
+    phases: Vec<Vec<String>>,
+}
+
+/// +1 … +60 cells
+fn grow_step(r: &mut Rng) -> usize {
+    match r.below(3) {
+        0 => 1 + r.below(8),
+        1 => 9 + r.below(17),
+        _ => 26 + r.below(35),
+    }
+}
+
+/// the length of the cells introduced by phase 0, 1, …: growing (60%), shrinking (20%), unrelated (20%)
+fn width_plan(r: &mut Rng, nphases: usize, first_max: usize, cap: usize) -> Vec<usize> {
+    let dir = r.below(10);
+    let mut v = vec![];
+    if dir < 6 {
+        let mut l = 1 + r.below(first_max);
+        for _ in 0..nphases {
+            v.push(l.min(cap));
+            l += grow_step(r);
+        }
+    } else if dir < 8 {
+        let mut l = cap / 3 + r.below(cap - cap / 3 + 1);
+        for _ in 0..nphases {
+            v.push(l.max(1));
+            l = l.saturating_sub(grow_step(r));
+        }
+    } else {
+        for _ in 0..nphases {
+            v.push(1 + r.below(cap));
+        }
+    }
+    v
+}
+
+/// a fresh key `/<rank><filler…>` of about `len` (≥ 2) cells without blanks, quotes or backslashes
+fn key_text(r: &mut Rng, rank: char, len: usize, used: &mut std::collections::BTreeSet<String>) -> String {
+    const CS: &[u8] = b"abcdefghijklmnopqrstuvwxyz0123456789/_.-";
+    let mut len = len.max(2);
+    loop {
+        let mut s = String::from("/");
+        s.push(rank);
+        let mut cells = 2;
+        while cells < len {
+            if cells > 3 && r.chance(2) {
+                s.push(*r.pick(&['é', 'η', 'ü']));
+            } else {
+                s.push(CS[r.below(CS.len())] as char);
+            }
+            cells += 1;
+        }
+        if used.insert(s.clone()) {
+            return s;
+        }
+        len += 1;
+    }
+}
+
+fn letter(r: &mut Rng) -> char {
+    (b'a' + r.below(26) as u8) as char
+}
+
+/// an integer of exactly `digits` (1..=17) digits
+fn with_digits(r: &mut Rng, digits: usize) -> i64 {
+    let mut v: i64 = 1 + r.below(9) as i64;
+    for _ in 1..digits.clamp(1, 17) {
+        v = v * 10 + r.below(10) as i64;
+    }
+    v
+}
+
+fn number_text(r: &mut Rng, v: i64, float: bool) -> String {
+    if float {
+        format!("{}{}", v, r.pick(&[".25", ".5", ".75", ".125"]))
+    } else {
+        format!("{}", v)
+    }
+}
+
+/// `count by url [| sort …] [| limit N]`: late keys of another length enter (or lead) the table
+fn gen_topn(r: &mut Rng) -> Phased {
+    let n = 1 + r.below(4);
+    let (query, by_key, two_keys, limited) = match r.below(8) {
+        0 | 1 => (format!("* | json | count by url | limit {}", n), false, false, true),
+        2 => (format!("* | json | count as hits by url | sort by hits desc | limit {}", n), false, false, true),
+        3 => (format!("* | json | count by url, m | limit {}", n), false, true, true),
+        4 => (format!("* | json | count by url | sort by url | limit {}", n), true, false, true),
+        5 => ("* | json | count by url | sort by url".to_string(), true, false, false),
+        6 => (format!("* | json | count, sum(n) as bytes by url | sort by bytes desc | limit {}", n), false, false, true),
+        _ => ("* | json | count by url".to_string(), false, false, false),
+    };
+    let nphases = 2 + r.below(3);
+    let plan = width_plan(r, nphases, 12, 70);
+    let mut used = std::collections::BTreeSet::new();
+    let mut counts: Vec<(String, usize)> = vec![];
+    let mut phases = vec![];
+    for (p, want_len) in plan.iter().enumerate() {
+        let fresh = if p == 0 {
+            if limited {
+                n + r.below(3)
+            } else {
+                1 + r.below(4)
+            }
+        } else {
+            1 + r.below(2)
+        };
+        let mut rows: Vec<String> = vec![];
+        let mut sorted: Vec<usize> = counts.iter().map(|c| c.1).collect();
+        sorted.sort_by(|a, b| b.cmp(a));
+        let top = sorted.first().copied().unwrap_or(0);
+        let nth = sorted.get(n.min(sorted.len()).saturating_sub(1)).copied().unwrap_or(0);
+        for j in 0..fresh {
+            let rank = if by_key {
+                // mostly a key that sorts ABOVE everything drawn so far
+                if r.chance(75) {
+                    (b'x' - 6 * p as u8 - r.below(5) as u8) as char
+                } else {
+                    *r.pick(&['y', 'z'])
+                }
+            } else {
+                letter(r)
+            };
+            let len = want_len.saturating_sub(if j > 0 || p == 0 { r.below(3) } else { 0 });
+            let key = key_text(r, rank, len, &mut used);
+            let c = if p == 0 || by_key {
+                1 + r.below(5)
+            } else if r.chance(65) {
+                top + 1 + r.below(2)
+            } else {
+                nth + 1
+            };
+            counts.push((key, c.min(24)));
+            let (key, c) = counts.last().cloned().unwrap();
+            let m = ["GET", "POST", "DELETE"][key.len() % 3];
+            for _ in 0..c {
+                rows.push(if two_keys { format!("{{\"url\":\"{}\",\"m\":\"{}\",\"n\":{}}}", key, m, r.range(1, 900)) } else { format!("{{\"url\":\"{}\",\"n\":{}}}", key, r.range(1, 900)) });
+            }
+        }
+        if p > 0 && r.chance(40) {
+            // a few more hits for keys already known
+            for _ in 0..1 + r.below(3) {
+                let i = r.below(counts.len());
+                counts[i].1 += 1;
+                let key = counts[i].0.clone();
+                let m = ["GET", "POST", "DELETE"][key.len() % 3];
+                rows.push(if two_keys { format!("{{\"url\":\"{}\",\"m\":\"{}\",\"n\":{}}}", key, m, r.range(1, 900)) } else { format!("{{\"url\":\"{}\",\"n\":{}}}", key, r.range(1, 900)) });
+            }
+        }
+        r.shuffle(&mut rows);
+        phases.push(rows);
+    }
+    Phased { kind: "top-n-by-key", query, phases }
+}
+
+/// `sum(n)`, `max(n)`, … without group-by: one row whose values gain (or lose) many digits
+fn gen_scalar(r: &mut Rng) -> Phased {
+    let query = *r.pick(&[
+        "* | json | sum(n)",
+        "* | json | max(n)",
+        "* | json | min(n)",
+        "* | json | sum(n), max(n)",
+        "* | json | sum(n) as total, count",
+        "* | json | max(n) as hi, min(n) as lo",
+        "* | json | avg(n)",
+        "* | json | sum(n) as total | sort by total",
+    ]);
+    let nphases = 2 + r.below(3);
+    let plan = width_plan(r, nphases, 3, 17);
+    // 0: positive values, 1: negative values, 2: later phases take most of the sum back
+    let signs = r.below(3);
+    let float = r.chance(25);
+    let mut sum: i128 = 0;
+    let mut phases = vec![];
+    for (p, digits) in plan.iter().enumerate() {
+        let mut rows = vec![];
+        for _ in 0..1 + r.below(3) {
+            let v = if signs == 2 && p > 0 && sum != 0 && r.chance(60) {
+                (-sum + r.range(-99, 99) as i128).clamp(-(10i128.pow(17)), 10i128.pow(17)) as i64
+            } else {
+                let v = with_digits(r, *digits);
+                if signs == 1 || (signs == 2 && r.chance(20)) {
+                    -v
+                } else {
+                    v
+                }
+            };
+            sum += v as i128;
+            rows.push(format!("{{\"n\":{},\"k\":\"x\"}}", number_text(r, v, float)));
+        }
+        phases.push(rows);
+    }
+    Phased { kind: "scalar-aggregate", query: query.to_string(), phases }
+}
+
+/// numeric aggregates by a key: the set of groups is (mostly) complete after the first phase, later
+/// phases make the aggregates of existing groups much wider
+fn gen_grouped(r: &mut Rng) -> Phased {
+    let n = 1 + r.below(4);
+    let query = match r.below(8) {
+        0 => "* | json | max(n) by k".to_string(),
+        1 => "* | json | sum(n) by k".to_string(),
+        2 => "* | json | count, max(n) as top by k | sort by k".to_string(),
+        3 => "* | json | min(n), max(n) by k".to_string(),
+        4 => format!("* | json | sum(n) as s by k | sort by s desc | limit {}", n),
+        5 => format!("* | json | max(n) as m by k | sort by m desc | limit {}", n),
+        6 => "* | json | avg(n) as mean, count by k | sort by k".to_string(),
+        _ => format!("* | json | min(n) as lo by k | sort by lo | limit {}", n),
+    };
+    let nphases = 2 + r.below(3);
+    let plan = width_plan(r, nphases, 3, 17);
+    let negative = r.chance(30);
+    let float = r.chance(25);
+    let mut used = std::collections::BTreeSet::new();
+    let ngroups = 2 + r.below(4);
+    let mut groups: Vec<String> = vec![];
+    for _ in 0..ngroups {
+        let len = 2 + r.below(7);
+        let rank = letter(r);
+        groups.push(key_text(r, rank, len, &mut used));
+    }
+    let mut phases = vec![];
+    for (p, digits) in plan.iter().enumerate() {
+        let mut rows = vec![];
+        let row = |r: &mut Rng, k: &str| {
+            let v = with_digits(r, *digits);
+            format!("{{\"k\":\"{}\",\"n\":{}}}", k, number_text(r, if negative { -v } else { v }, float))
+        };
+        if p == 0 {
+            for g in &groups {
+                for _ in 0..1 + r.below(2) {
+                    rows.push(row(r, g));
+                }
+            }
+        } else {
+            for _ in 0..1 + r.below(ngroups) {
+                let g = groups[r.below(groups.len())].clone();
+                rows.push(row(r, &g));
+            }
+            if r.chance(25) {
+                let len = 2 + r.below(29);
+                let rank = letter(r);
+                let g = key_text(r, rank, len, &mut used);
+                rows.push(row(r, &g));
+                groups.push(g);
+            }
+        }
+        r.shuffle(&mut rows);
+        phases.push(rows);
+    }
+    Phased { kind: "grouped-aggregate", query, phases }
+}
+
+/// a raw `sort … | limit N`: late rows with cells of another length enter the N rows on display
+fn gen_raw_topn(r: &mut Rng) -> Phased {
+    let n = 1 + r.below(4);
+    let (query, asc) = match r.below(5) {
+        0 | 1 => (format!("* | json | sort by n desc | limit {}", n), false),
+        2 => (format!("* | json | fields url, n | sort by n desc | limit {}", n), false),
+        3 => (format!("* | json | sort by n | limit {}", n), true),
+        _ => (format!("* | json | fields msg, n, url | sort by n, url desc | limit {}", n), false),
+    };
+    let nphases = 2 + r.below(3);
+    let url_plan = width_plan(r, nphases, 12, 60);
+    let msg_plan = width_plan(r, nphases, 6, 20);
+    let mut used = std::collections::BTreeSet::new();
+    let mut taken = std::collections::BTreeSet::new();
+    let mut phases = vec![];
+    for p in 0..nphases {
+        let mut rows = vec![];
+        let nrows = if p == 0 { n + r.below(3) } else { 1 + r.below(3) };
+        for j in 0..nrows {
+            let rank = letter(r);
+            let jitter = if j > 0 { r.below(3) } else { 0 };
+            let url = key_text(r, rank, url_plan[p].saturating_sub(jitter), &mut used);
+            let msg: String = (0..msg_plan[p].max(1)).map(|_| letter(r)).collect();
+            // mostly a row that enters the rows on display (all sort keys distinct)
+            let mut v = if p == 0 || r.chance(75) { 1000 * p as i64 + r.range(1, 999) } else { r.range(-500, 0) };
+            while !taken.insert(v) {
+                v += 1;
+            }
+            rows.push(format!("{{\"url\":\"{}\",\"n\":{},\"msg\":\"{}\"}}", url, if asc { -v } else { v }, msg));
+        }
+        phases.push(rows);
+    }
+    Phased { kind: "raw-top-n", query, phases }
+}
+
+fn gen_phased(r: &mut Rng) -> Phased {
+    match r.below(10) {
+        0..=3 => gen_topn(r),
+        4 | 5 => gen_scalar(r),
+        6 | 7 => gen_grouped(r),
+        _ => gen_raw_topn(r),
+    }
+}
+
+/// the columns a table needs when every column is as wide as its widest cell in ANY of the tables
+/// (one per prefix of the input: a frame is always the table of a prefix) plus 12 blanks of
+/// padding.  None: a table whose rows do not have one blank-free cell per column.
+fn width_needed(tables: &[String]) -> Option<usize> {
+    let mut widest: std::collections::BTreeMap<String, usize> = std::collections::BTreeMap::new();
+    for t in tables {
+        if t == "No data\n" {
+            continue;
+        }
+        let lines: Vec<&str> = t.lines().collect();
+        if lines.len() < 2 || lines[1].is_empty() || !lines[1].chars().all(|c| c == '-') {
+            return None;
+        }
+        let header: Vec<&str> = lines[0].split_whitespace().collect();
+        for (i, l) in lines.iter().enumerate() {
+            if i == 1 {
+                continue;
+            }
+            let cells: Vec<&str> = l.split_whitespace().collect();
+            if cells.len() != header.len() {
+                return None;
+            }
+            for (c, name) in cells.iter().zip(header.iter()) {
+                // (bytes: never fewer than cells for the characters generated here)
+                let e = widest.entry(name.to_string()).or_insert(0);
+                *e = (*e).max(c.len());
+            }
+        }
+    }
+    Some(widest.values().map(|v| v + 12).sum())
+}
+
+/// Does the frame show the rows and values of `plain_text` (what a non-terminal run prints),
+/// clipped to h−1 lines, up to blanks?  Stricter than `frame_vs_plain`: where the whole table fits
+/// the terminal width a cell cut with `…` is NOT the value.  None = yes.
+fn strict_frame_vs_plain(frame: &str, plain_text: &str, h: u16) -> Option<String> {
+    let strip = |s: &str| -> String { s.chars().filter(|c| !c.is_whitespace()).collect() };
+    let tty_lines: Vec<&str> = frame.strip_suffix('\n').unwrap_or(frame).split('\n').collect();
+    let plain_lines: Vec<&str> = plain_text.strip_suffix('\n').unwrap_or(plain_text).split('\n').collect();
+    let want_n = plain_lines.len().min((h as usize) - 1);
+    if tty_lines.len() != want_n {
+        return Some(format!("frame has {} lines, the first {} of the {} lines of the non-terminal table were expected (height {})", tty_lines.len(), want_n, plain_lines.len(), h));
+    }
+    let is_rule = |l: &str| !l.is_empty() && l.chars().all(|c| c == '-');
+    let table = plain_lines.len() >= 2 && is_rule(plain_lines[1]);
+    for i in 0..want_n {
+        if table && i == 1 {
+            if !is_rule(tty_lines[1]) {
+                return Some(format!("line 1 of the frame {:?} is not the rule under the header", c19::clip(tty_lines[1], 160)));
+            }
+            continue;
+        }
+        if strip(tty_lines[i]) != strip(plain_lines[i]) {
+            return Some(format!(
+                "line {} of the frame {:?} does not show the cells of {:?}{}",
+                i,
+                c19::clip(tty_lines[i], 200),
+                c19::clip(plain_lines[i], 200),
+                if tty_lines[i].contains('…') && !plain_lines[i].contains('…') { " (a cell is cut with an ellipsis although the whole table fits the terminal width)" } else { "" }
+            ));
+        }
+    }
+    None
+}
+
+struct PhasedRun {
+    case: Phased,
+    input: Vec<u8>,
+    /// byte offset of the end of every phase
+    phase_ends: Vec<usize>,
+    /// number of lines up to the end of every phase
+    phase_lines: Vec<usize>,
+    /// what a non-terminal run prints for the first k lines, k = 0..=lines
+    prefix_tables: Vec<String>,
+    w: u16,
+    h: u16,
+    need: usize,
+}
+
+/// generate a phased input, compute the non-terminal table of every prefix and a terminal wide
+/// enough for all of them.  None: reported (harness problem / unmodelled).
+fn prepare_phased(ctx: &mut Ctx, family: &str, key: &str, r: &mut Rng) -> Option<PhasedRun> {
+    let case = gen_phased(r);
+    let mut input = vec![];
+    let mut phase_ends = vec![];
+    let mut phase_lines = vec![];
+    let mut line_starts = vec![0usize];
+    for ph in &case.phases {
+        for l in ph {
+            input.extend_from_slice(l.as_bytes());
+            input.push(b'\n');
+            line_starts.push(input.len());
+        }
+        phase_ends.push(input.len());
+        phase_lines.push(line_starts.len() - 1);
+    }
+    let nlines = line_starts.len() - 1;
+    let mut prefix_tables = vec![];
+    for k in 0..=nlines {
+        let p = run_pipeline(&case.query, &input[..line_starts[k]], None, false, 0, 0, vec![]);
+        let info = serde_json::json!({"level": "pipeline", "scenario": case.kind, "query": case.query, "prefix_lines": k, "input_hex": enc::hexb(&input)});
+        if !p.compiled {
+            ctx.case(family, key, "viol", serde_json::json!({"class": "C16/harness", "what": "query did not compile", "case": info}));
+            return None;
+        }
+        if p.panicked.is_some() || p.hung {
+            ctx.case(family, key, "viol", serde_json::json!({"class": "C16/non-tty-failed", "what": "non-terminal run of a prefix panicked or hung", "panic": p.panicked, "case": info}));
+            return None;
+        }
+        if p.writes != 1 || p.bytes.contains(&0x1b) {
+            ctx.case(family, key, "viol", serde_json::json!({"class": "C16/non-tty-writes", "what": format!("non-terminal run wrote {} times{}", p.writes, if p.bytes.contains(&0x1b) { " and emitted ESC" } else { "" }), "case": info}));
+            return None;
+        }
+        prefix_tables.push(String::from_utf8_lossy(&p.bytes).into_owned());
+    }
+    let need = match width_needed(&prefix_tables) {
+        Some(n) if n <= 230 => n,
+        other => {
+            ctx.case(family, "", "skip", serde_json::json!({"why": format!("tables without one blank-free cell per column, or too wide for any terminal of this family ({:?})", other), "query": case.query, "input_hex": enc::hexb(&input)}));
+            return None;
+        }
+    };
+    // wide enough for every column at its widest: clipping by width is never legitimate here (C19 owns it)
+    let w = (100 + r.below(41)).max(need) as u16;
+    // mostly tall enough for the whole table; sometimes the table is clipped to h−1 lines
+    let h = if r.chance(75) { 14 + r.below(30) as u16 } else { 3 + r.below(6) as u16 };
+    Some(PhasedRun { case, input, phase_ends, phase_lines, prefix_tables, w, h, need })
+}
+
+/// how long the idle display may take to show everything received (the refresh interval is 50 ms;
+/// the bound only has to tell "late on a loaded machine" from "never")
+const PHASED_CATCH_UP_MS: u64 = 8000;
+
+/// Phased input on the REAL clock (no refresh override): a phase is released at once, the input
+/// then stays open and idle for 150–400 ms (several refreshes of an unchanged table); once the
+/// screen has caught up it must show — strictly, no cut cells: the terminal is wide enough for
+/// every column at its widest — the table a non-terminal run prints for everything released so
+/// far; after end of input the final screen must be exactly the final table.
+fn phased_growth_live(ctx: &mut Ctx, idx: usize, r: &mut Rng) {
+    use super::c15::Gate;
+    let family = "phased-cell-growth";
+    let key = format!("{}:{}", family, idx);
+    let run = match prepare_phased(ctx, family, &key, r) {
+        Some(x) => x,
+        None => return,
+    };
+    let (w, h) = (run.w, run.h);
+    let query = run.case.query.clone();
+    let nph = run.case.phases.len();
+    let idle_ms: Vec<u64> = (0..nph).map(|_| 150 + r.below(251) as u64).collect();
+    let info = serde_json::json!({"level": "pipeline, real clock", "scenario": run.case.kind, "query": query, "size": [w, h], "columns_needed": run.need,
+        "phase_lines": run.phase_lines, "idle_ms": idle_ms, "input_hex": enc::hexb(&run.input)});
+    let gate = Gate::default();
+    let sink = CountingBuf::default();
+    let (tx, rx) = mpsc::channel();
+    let panics_before = imp::PANICS.load(Ordering::SeqCst);
+    {
+        let q = query.clone();
+        let out = sink.clone();
+        let reader = gate.reader();
+        std::thread::spawn(move || {
+            let res = catch_unwind(AssertUnwindSafe(move || {
+                let qc = QueryContainer::new(q, Box::new(Recorder::default()));
+                match Pipeline::verif_new_with_terminal(&qc, out, OutputMode::Legacy, Some((w, h)), true, None) {
+                    Ok(p) => {
+                        p.process(reader);
+                        true
+                    }
+                    Err(_) => false,
+                }
+            }));
+            let _ = tx.send(res.unwrap_or(false));
+        });
+    }
+    let snapshot = |sink: &CountingBuf| -> Vec<u8> { sink.buf.0.lock().unwrap().clone() };
+    // what the screen shows for the bytes drawn so far: the last frame, if the screen is exactly it
+    let on_screen = |bytes: &[u8]| -> Option<String> {
+        let text = String::from_utf8_lossy(bytes).into_owned();
+        let mut scr = Screen::blank(w as usize, h as usize);
+        scr.display(&text)?;
+        let frames = split_frames(&text);
+        let last = frames.last()?.clone();
+        if scr.row_strings() == expected_rows(w as usize, h as usize, &last) {
+            Some(last)
+        } else {
+            None
+        }
+    };
+    let frames_drawn = |sink: &CountingBuf| -> usize { split_frames(&String::from_utf8_lossy(&snapshot(sink))).len() };
+    let mut late_ms: Vec<u64> = vec![];
+    let mut idle_frames: Vec<usize> = vec![];
+    let mut start = 0usize;
+    for p in 0..nph {
+        let before = frames_drawn(&sink);
+        gate.release(&run.input[start..run.phase_ends[p]]);
+        start = run.phase_ends[p];
+        std::thread::sleep(Duration::from_millis(idle_ms[p]));
+        let plain_text = &run.prefix_tables[run.phase_lines[p]];
+        let t0 = std::time::Instant::now();
+        let mut last_seen: Option<String>;
+        // wait for the display to catch up: the (lenient) comparison that takes a cut cell for its value
+        let caught_up = loop {
+            last_seen = on_screen(&snapshot(&sink));
+            if let Some(f) = &last_seen {
+                if frame_vs_plain(f, plain_text, w, h, true).is_none() {
+                    late_ms.push(t0.elapsed().as_millis() as u64);
+                    break true;
+                }
+            }
+            if t0.elapsed() > Duration::from_millis(PHASED_CATCH_UP_MS) {
+                break false;
+            }
+            std::thread::sleep(Duration::from_millis(30));
+        };
+        idle_frames.push(frames_drawn(&sink) - before);
+        let bad = if !caught_up {
+            Some((
+                "C16/idle-display-stale",
+                format!("after phase {} ({} lines released in all) and {} ms of idle input the screen does not show the table of all lines received", p, run.phase_lines[p], idle_ms[p] + PHASED_CATCH_UP_MS),
+            ))
+        } else {
+            strict_frame_vs_plain(last_seen.as_deref().unwrap_or(""), plain_text, h).map(|what| ("C16/idle-frame-differs", format!("input idle after phase {} of {} ({} lines released): {}", p, nph, run.phase_lines[p], what)))
+        };
+        if let Some((class, what)) = bad {
+            gate.eof();
+            let _ = rx.recv_timeout(Duration::from_secs(20));
+            ctx.case(family, &key, "viol", serde_json::json!({"class": class, "what": what, "screen_frame": last_seen, "expected_table": plain_text, "case": info}));
+            return;
+        }
+    }
+    gate.eof();
+    let compiled = match rx.recv_timeout(Duration::from_secs(20)) {
+        Ok(c) => c,
+        Err(_) => {
+            ctx.case(family, &key, "viol", serde_json::json!({"class": "C16/hang", "what": "the run did not end after end of input", "case": info}));
+            return;
+        }
+    };
+    if !compiled || imp::PANICS.load(Ordering::SeqCst) != panics_before {
+        let p = imp::LAST_PANIC.lock().map(|g| g.clone()).unwrap_or_default();
+        ctx.case(family, &key, "viol", serde_json::json!({"class": "C16/panic", "what": format!("the terminal run panicked or the query did not compile: {}", c19::clip(&p, 200)), "case": info}));
+        return;
+    }
+    let bytes = snapshot(&sink);
+    let text = String::from_utf8_lossy(&bytes).into_owned();
+    let frames = split_frames(&text);
+    // emulators agree, bytes = reset + frame, final screen = final frame (no residue)
+    let mut tap = VerdictTap::default();
+    judge_bytes_tap(ctx, &mut tap, w as usize, h as usize, &bytes, &frames);
+    if let Some((verdict, mut payload)) = tap.0.take() {
+        if verdict != "pass" {
+            payload["case"] = info;
+            ctx.case(family, if verdict == "skip" { "" } else { &key }, &verdict, payload);
+            return;
+        }
+    }
+    let last = frames.last().cloned().unwrap_or_default();
+    let plain_text = run.prefix_tables.last().cloned().unwrap_or_default();
+    if let Some(what) = strict_frame_vs_plain(&last, &plain_text, h) {
+        ctx.case(family, &key, "viol", serde_json::json!({"class": "C16/final-frame-differs", "what": what, "final_frame": last, "non_tty": c19::clip(&plain_text, 2000), "case": info}));
+        return;
+    }
+    ctx.case(family, &key, "pass", serde_json::json!({"scenario": run.case.kind, "query": query, "size": [w, h], "columns_needed": run.need, "phase_lines": run.phase_lines, "idle_ms": idle_ms,
+        "caught_up_after_ms": late_ms, "frames_per_phase": idle_frames, "frames": frames.len()}));
+}
+
+/// The same phased inputs under a scripted refresh schedule (a refresh after every row, or after a
+/// pseudo-random subset of the rows and idle ticks; pauses at the phase boundaries): every frame
+/// must be — strictly — the table of some prefix of the input, prefixes never going back, the
+/// final frame the table of all rows, and the final screen exactly that frame.
+fn phased_growth_scripted(ctx: &mut Ctx, idx: usize, r: &mut Rng) {
+    let family = "phased-cell-growth-scripted";
+    let key = format!("{}:{}", family, idx);
+    let run = match prepare_phased(ctx, family, &key, r) {
+        Some(x) => x,
+        None => return,
+    };
+    let (w, h) = (run.w, run.h);
+    let query = run.case.query.clone();
+    let density = *r.pick(&[100usize, 100, 60, 25]);
+    let seed = r.next();
+    let mut pauses: Vec<(usize, u64)> = vec![];
+    if r.chance(30) {
+        for e in &run.phase_ends[..run.phase_ends.len() - 1] {
+            pauses.push((*e, 55 + r.below(30) as u64));
+        }
+    }
+    let info = serde_json::json!({"level": "pipeline", "scenario": run.case.kind, "query": query, "size": [w, h], "columns_needed": run.need, "phase_lines": run.phase_lines,
+        "refresh_density": density, "refresh_seed": seed, "pauses": pauses, "input_hex": enc::hexb(&run.input)});
+    let tty = run_pipeline(&query, &run.input, Some((w, h)), true, seed, density, pauses.clone());
+    if tty.hung {
+        ctx.case(family, &key, "viol", serde_json::json!({"class": "C16/hang", "what": "terminal run did not finish", "case": info}));
+        return;
+    }
+    if let Some(p) = &tty.panicked {
+        ctx.case(family, &key, "viol", serde_json::json!({"class": "C16/panic", "what": format!("terminal run panicked: {}", c19::clip(p, 200)), "case": info}));
+        return;
+    }
+    let text = String::from_utf8_lossy(&tty.bytes).into_owned();
+    let frames = split_frames(&text);
+    let nlines = run.prefix_tables.len() - 1;
+    let mut at = 0usize;
+    for (fi, f) in frames.iter().enumerate() {
+        let last = fi + 1 == frames.len();
+        let from = if last { nlines } else { at };
+        match (from..=nlines).find(|k| strict_frame_vs_plain(f, &run.prefix_tables[*k], h).is_none()) {
+            Some(k) => at = k,
+            None => {
+                let class = if last { "C16/final-frame-differs" } else { "C16/frame-is-no-prefix-table" };
+                // the nearest explanation: the first prefix whose table the frame shows up to cut cells
+                let lenient = (from..=nlines).find(|k| frame_vs_plain(f, &run.prefix_tables[*k], w, h, true).is_none()).unwrap_or(from);
+                ctx.case(
+                    family,
+                    &key,
+                    "viol",
+                    serde_json::json!({"class": class,
+                        "what": format!("frame {} of {} is not the table of {}: {}", fi, frames.len(), if last { "all rows".to_string() } else { format!("any prefix of ≥ {} lines", at) },
+                            strict_frame_vs_plain(f, &run.prefix_tables[lenient], h).unwrap_or_default()),
+                        "frame": f, "expected_table": run.prefix_tables[lenient], "case": info}),
+                );
+                return;
+            }
+        }
+    }
+    let mut tap = VerdictTap::default();
+    judge_bytes_tap(ctx, &mut tap, w as usize, h as usize, &tty.bytes, &frames);
+    if let Some((verdict, mut payload)) = tap.0.take() {
+        if verdict != "pass" {
+            payload["case"] = info;
+            ctx.case(family, if verdict == "skip" { "" } else { &key }, &verdict, payload);
+            return;
+        }
+    }
+    ctx.case(family, &key, "pass", serde_json::json!({"scenario": run.case.kind, "query": query, "size": [w, h], "columns_needed": run.need, "phase_lines": run.phase_lines, "frames": frames.len(), "refresh_density": density}));
+}
+
 /* ---------- level 3: the real binary, stdout not a terminal, stderr a terminal ---------- */
 
 struct ChildOut {
@@ -1433,5 +2078,18 @@ pub fn check(ctx: &mut Ctx) {
     for i in 0..n3 {
         let mut r = ctx.rng.fork();
         level2(ctx, ctx.shard * 1_000_000 + 500_000 + i, &mut r, true);
+    }
+    // phased inputs whose cells grow/shrink while the table keeps its shape: scripted refreshes …
+    // (AGVERIF_C16_NO_SCRIPTED=1: leave them out, to see what the real-clock family finds on its own)
+    let n8 = if std::env::var("AGVERIF_C16_NO_SCRIPTED").is_ok() { 0 } else { ctx.budget(240, 3200) };
+    for i in 0..n8 {
+        let mut r = ctx.rng.fork();
+        phased_growth_scripted(ctx, ctx.shard * 1_000_000 + 950_000 + i, &mut r);
+    }
+    // … and the real clock with idle periods between the phases
+    let n9 = ctx.budget(48, 480);
+    for i in 0..n9 {
+        let mut r = ctx.rng.fork();
+        phased_growth_live(ctx, ctx.shard * 1_000_000 + 970_000 + i, &mut r);
     }
 }
